@@ -331,6 +331,23 @@ func c19Encode(text, format string) ([]byte, error) {
 	return buf.Bytes(), err
 }
 
+// failingReader yields left values and then fails.
+type failingReader struct {
+	zctx *zed.Context
+	left int
+	n    int
+}
+
+func (f *failingReader) Read() (*zed.Value, error) {
+	if f.left == 0 {
+		return nil, errors.New("source failed")
+	}
+	f.left--
+	f.n++
+	v, err := zson.ParseValue(f.zctx, fmt.Sprintf("{k:%d}", 10+f.n))
+	return &v, err
+}
+
 type onlyReader struct{ r io.Reader }
 
 func (o onlyReader) Read(b []byte) (int, error) { return o.r.Read(b) }
@@ -650,6 +667,51 @@ func TestC19(t *testing.T) {
 		stats.add("loads", 1)
 	})
 
+	// (2b) a load whose source reader fails after k values: both paths must report the
+	// failure and commit nothing
+	for k := 0; k <= 3; k++ {
+		k := k
+		func() {
+			p, err := newC19Pair(ctx)
+			if err != nil {
+				t.Errorf("harness: %v", err)
+				return
+			}
+			defer p.Close()
+			mk := lk.Op{Kind: "createpool", Pool: "p", Key: "k:asc"}
+			if d, r := c19Apply(ctx, p.direct, mk), c19Apply(ctx, p.remote, mk); d.err != nil || r.err != nil {
+				t.Errorf("harness: createpool: %v / %v", d.err, r.err)
+				return
+			}
+			load := func(l *lk.Lake) error {
+				id, err := l.Root.PoolID(ctx, "p")
+				if err != nil {
+					return err
+				}
+				zctx := zed.NewContext()
+				_, err = l.API.Load(ctx, zctx, id, "main", &failingReader{zctx: zctx, left: k}, api.CommitMessage{Author: "verif", Body: "m"})
+				return err
+			}
+			derr, rerr := load(p.direct), load(p.remote)
+			run.Eval(fmt.Sprint("load from a reader failing after ", k))
+			stats.add("loads_from_failing_readers", 1)
+			detail := map[string]any{"values_before_the_source_fails": k, "direct_error": fmt.Sprint(derr), "remote_error": fmt.Sprint(rerr)}
+			switch {
+			case derr != nil && rerr == nil:
+				violation("load symptom=source-error-dropped-by-remote-load", detail)
+				return
+			case derr == nil && rerr != nil:
+				violation("load symptom=remote-load-fails-where-direct-succeeds", detail)
+				return
+			}
+			sd, sr := c19DirRe.ReplaceAllString(c19State(ctx, p.direct), "<lake>"), c19DirRe.ReplaceAllString(c19State(ctx, p.served), "<lake>")
+			if sd != sr {
+				detail["direct_state"], detail["served_state"] = sd, sr
+				violation("load symptom=state-differs-after-load-from-failing-source", detail)
+			}
+		}()
+	}
+
 	// (3) response formats x ctrl x queries on the prelude state; (4) errors after streaming started
 	queries := []string{"from p", "from p@b", "from p | count()", "from p | yield v", "from p | yield k+1", "from p | put t:=typeof(this) | cut t", "from p | where k>100", "from :pools | cut name"}
 	type qcase struct {
@@ -857,7 +919,7 @@ func TestC19(t *testing.T) {
 	mu.Unlock()
 	run.Sample(map[string]any{"alphabet_small": len(small), "alphabet_full": len(full), "depth_from_empty": depth0, "depth_from_prelude": depth1, "load_cases": len(lcases), "query_cases": len(qcases), "example_history": fmt.Sprint(hs[len(hs)/2].ops)})
 	run.Set("exhaustive", !expired())
-	run.Set("rule", "(1) every operation sequence of the stated depth over the alphabet (pool create/rename/drop, branch create/drop, loads incl. empty, delete by id and by predicate, compact, merge, revert, vectors, vacuum, queries incl. failing ones), from the empty lake and from a 5-operation prelude state, applied in lock step to a lake through lakeapi.FromRoot and to a second lake through lakeapi.NewRemoteLake over an httptest server running service.Core; after every step: same ok/error outcome, same query output in order, and the same state (pools with sort keys/threshold/stride, branches, branch contents in scan order, object ranges/counts/vector flags, commit-path lengths) read through independent direct handles. (2) three inputs x ten encodings x {declared content type, auto-detect} plus mismatched declarations, loaded through Connection.Load and through anyio+Load directly. (3) eight queries x every response format x ctrl {T,F}: the response body must equal the direct output written by the same writer (values for zng). (4) the same with the last data object missing or truncated so the query fails after streaming started: the failure must be visible to the client (HTTP status, transport error, in-band error message or the /query/status/{request id} endpoint). (5) every sequence of up to 5 (thorough 6) response events (a batch on one of three channels, end of a channel, progress), with and without a trailing error, written by queryio.Writer with control messages and read back by queryio.NewScanner: same (channel, value) sequence, end-of-channel markers and error")
+	run.Set("rule", "(1) every operation sequence of the stated depth over the alphabet (pool create/rename/drop, branch create/drop, loads incl. empty, delete by id and by predicate, compact, merge, revert, vectors, vacuum, queries incl. failing ones), from the empty lake and from a 5-operation prelude state, applied in lock step to a lake through lakeapi.FromRoot and to a second lake through lakeapi.NewRemoteLake over an httptest server running service.Core; after every step: same ok/error outcome, same query output in order, and the same state (pools with sort keys/threshold/stride, branches, branch contents in scan order, object ranges/counts/vector flags, commit-path lengths) read through independent direct handles. (2) three inputs x ten encodings x {declared content type, auto-detect} plus mismatched declarations, loaded through Connection.Load and through anyio+Load directly. (2b) loads from a source reader that fails after 0..3 values, through both paths: both must report the failure and leave the same state. (3) eight queries x every response format x ctrl {T,F}: the response body must equal the direct output written by the same writer (values for zng). (4) the same with the last data object missing or truncated so the query fails after streaming started: the failure must be visible to the client (HTTP status, transport error, in-band error message or the /query/status/{request id} endpoint). (5) every sequence of up to 5 (thorough 6) response events (a batch on one of three channels, end of a channel, progress), with and without a trailing error, written by queryio.Writer with control messages and read back by queryio.NewScanner: same (channel, value) sequence, end-of-channel markers and error")
 	run.Assume("both lakes live on the real file system; ids differ between them, so ids are excluded from the comparison and objects are addressed by canonical index")
 	run.Assume("one client at a time; concurrent requests are C12/C13's subject")
 }
